@@ -466,7 +466,11 @@ func jsonShape(b []byte) string {
 			st[len(st)-1].isKey = false
 			continue
 		}
-		sb.WriteByte('L')
+		if t == nil {
+			sb.WriteByte('N') // null
+		} else {
+			sb.WriteByte('L')
+		}
 		if len(st) > 0 && st[len(st)-1].obj {
 			st[len(st)-1].isKey = true
 		}
